@@ -69,6 +69,13 @@ def run(ck):
                         "holds two pairs with one query label number - the HitEnum walk drops one")
     from .c02 import fragments as _fr03
     _fr03(ck, "C03.18")
+    ck.clause("C03.19", "a record keeps the strand it was built on: records are made by AlignmentResultRow.create only (as C02.10 / C04.2) - "
+                        "a copy made with the raw constructor that leaves reverseStrand to its default writes Orientation '+' over pairs "
+                        "that descend in the query, and the HitEnum walked in that direction does not give the listed pairs")
+    if ck.wants("C03.19"):
+        from ..report import RuleView as _RV319
+        from . import c04 as _c04_319
+        _c04_319.ownership(_RV319(ck, {"C04.2": "C03.19"}, only_constructs=("raw-AlignmentResultRow",)))
     ck.clause("C03.17", "the conflict test sees every overlap of two neighbouring chain members (as C15.6): an overlap that is not "
                         "resolved leaves a label in two segments of the record, and the HitEnum walk counts it twice")
     from .c15 import overlap_test as _ot03
